@@ -51,7 +51,7 @@ TEXT.update({
                  'A syntactic audit of the freshly linked IR additionally requires every access to the process-wide leak counters, handler pointers and the temporary stack list head to be an atomic instruction (not a solver query). Instruction-level interleavings are not explored.', 'note': NOTE + ' std::mutex itself is trusted; interleavings are not enumerated.'},
  'C15': {'text': 'memory_stack: the leak counter is part of the symbolic pre-state; traits-level allocate/deallocate move it by exactly count*size; the destructor '
                  'calls the installed leak handler exactly once with the exact net amount iff it is non-zero; a moved-from object reports nothing and the count '
-                 'moves with the object.', 'note': NOTE},
+                 'moves with the object. memory_pool<array_pool> and memory_pool_collection<node_pool, log2_buckets> steps (allocate/deallocate node and array, composable variants, destructor, move) carry a symbolic counter too and assert the same deltas in leak-checking configurations; lowlevel allocators: the process-wide counter with 1..3 counter objects.', 'note': NOTE},
  'C10': {'text': 'Narrower than the statement: std_allocator equality (equal iff same referenced stateful allocator object; memory from one is released to the same '
                  'leaf through an equal copy) and the node/array decision of std_allocator::allocate/deallocate for element types of size/alignment (1,1) (3,1) (24,8) (48,16). '
                  'Real libstdc++ code of std::vector, std::forward_list and std::list on std_allocator over two recording leaf allocators is executed symbolically for '
